@@ -63,6 +63,13 @@ def run_one(s):
         attr(dom, names, [r_] if names else [], t1)
         tr["single"].append(t1)
     attr(dom, names, rows, tr)
+    # the same shape far away from the origin (1e6, 2e6, ...): the measure does not depend on where the shape is
+    tr["volfar"], tr["volfar_exc"] = [], "none"
+    js_ = __import__("json").dumps(e)
+    if not any(('"k": "%s"' % kk) in js_ for kk in ("poly", "mesh", "trans", "rot", "prod")):
+        r = watched(lambda: U.build_far(e).volume(U.mk_params(names, rows)))
+        tr["volfar"] = fxv(r[1], VS) if r[0] == "ok" else []
+        tr["volfar_exc"] = "" if r[0] == "ok" else (r[1] if len(r) > 1 else "hang")
     # user-set volume overrides
     d2 = U.build(e)
     r = watched(lambda: (d2.set_volume(5.0), d2.volume(U.mk_params(names, rows)))[1])
@@ -242,6 +249,10 @@ def run_one(s):
                             co = fr.coordinates
                             for j in range(len(fr)):
                                 pe["anim"].append(U.q_of({v: [float(x) for x in co[v][j]] for v in vs}, dict(bind, **{an: tv})))
+            # a SIBLING evaluation of the same original gets a user-set volume: neither the original nor D2 may see it
+            # (polygons / polyhedra are constant: their __call__ hands back the same object by design, a volume set on it is shared)
+            if not any(('"k": "%s"' % kk) in __import__("json").dumps(e) for kk in ("poly", "mesh")):
+                watched(lambda: dom(**{n: float(v) for n, v in bind.items()}).set_volume(7.0))
             # the ORIGINAL domain evaluated at bound values + remaining rows: must agree with D2
             full = {}
             attr(dom, names, [dict(r_, **bind) for r_ in rows], full)
